@@ -72,6 +72,11 @@ type scope struct {
 
 	registry *scopeRegistry
 
+	// rm serializes report passes over this scope: the report loop, the final
+	// report of Close and the report of a closed scope that is requested again
+	// can overlap, and a gauge value must not be delivered out of order.
+	rm sync.Mutex
+
 	cm sync.RWMutex
 	gm sync.RWMutex
 	tm sync.RWMutex
@@ -205,6 +210,10 @@ func newRootScope(opts ScopeOptions, interval time.Duration) *scope {
 
 // report dumps all aggregated stats into the reporter. Should be called automatically by the root scope periodically.
 func (s *scope) report(r StatsReporter) {
+	verifMutex(&s.rm, "scope.report:rm")
+	s.rm.Lock()
+	defer s.rm.Unlock()
+
 	verifRLock(&s.cm, "scope.report:cm")
 	s.cm.RLock()
 	for name, counter := range s.counters {
@@ -233,6 +242,10 @@ func (s *scope) report(r StatsReporter) {
 }
 
 func (s *scope) cachedReport() {
+	verifMutex(&s.rm, "scope.report:rm")
+	s.rm.Lock()
+	defer s.rm.Unlock()
+
 	verifRLock(&s.cm, "scope.report:cm")
 	s.cm.RLock()
 	for _, counter := range s.countersSlice {
